@@ -722,7 +722,29 @@ def _arr_reshape(ex, st, args, kw, node):
 
 
 ARRAY_METHODS = {"tolist": _arr_tolist, "copy": _arr_copy, "astype": _arr_astype, "any": _arr_any, "reshape": _arr_reshape}
-LIST_METHODS = {"append": _list_append, "extend": _list_extend}
+def _list_index(ex, st, args, kw, node):
+    """items.index(x) on a concrete list of concrete strings / numerals: the first position, ValueError when absent"""
+    from .core import PyRaise
+    l, x = args
+    items = st.heap[l.sid].items
+
+    def key(v):
+        if type(v) is StrV and not v.s.startswith("<"):
+            return ("s", v.s)
+        if getattr(v, "concrete_text", None) is not None:
+            return ("s", v.concrete_text)
+        z = z3.simplify(lit(v)) if is_z3(lit(v)) else None
+        if z is not None and (z3.is_int_value(z) or z3.is_rational_value(z)):
+            return ("n", z.as_fraction() if z3.is_rational_value(z) else z.as_long())
+        raise Undecided("list.index on values that are not concrete")
+    kx = key(x)
+    for j, it in enumerate(items):
+        if key(it) == kx:
+            return z3.IntVal(j)
+    raise PyRaise("ValueError", "list.index: the value is not in the list")
+
+
+LIST_METHODS = {"append": _list_append, "extend": _list_extend, "index": _list_index}
 def _str_startswith(ex, st, args, kw, node):
     t = getattr(args[0], "startswith_term", None)       # an opaque string may carry the (uninterpreted) answer to this question
     if t is not None:
